@@ -598,4 +598,95 @@ theorem solveNormal_zero (pairs : List (V3 K × V3 K)) (h : ∀ e ∈ pairs, e.1
 theorem nyeOf_zero : nyeOf ((zeroM : M3 K), (zeroM : M3 K), (zeroM : M3 K)) = zeroM := by
   ext <;> simp [nyeOf, zeroM, zero3, M3.row, V3.get]
 
+/-! ### cosines of a vector with itself / a non-parallel vector; positions in `zip … range` -/
+
+theorem dot_comm' (a b : V3 K) : V3.dot a b = V3.dot b a := by
+  simp only [V3.dot]; ring
+
+theorem cosTheta_self (mag : V3 K → K) (p : V3 K) (h0 : 0 < mag p) (h1 : mag p * mag p = V3.normSq p) :
+    cosTheta mag p p = 1 := by
+  unfold cosTheta
+  rw [h1]
+  have : V3.normSq p ≠ 0 := by rw [← h1]; positivity
+  exact div_self this
+
+theorem cosTheta_lt_one (mag : V3 K → K) (q p : V3 K) (hq : 0 < mag q) (hp : 0 < mag p)
+    (h : V3.dot q p < mag q * mag p) : cosTheta mag q p < 1 := by
+  unfold cosTheta
+  rw [div_lt_one (by positivity)]
+  exact h
+
+theorem mem_zip_range {α : Type} : ∀ (l : List α) (n : Nat) (e : α × Nat), e ∈ l.zip (List.range' n l.length) →
+    ∃ pre post, l = pre ++ e.1 :: post ∧ n + pre.length = e.2
+  | [], _, e, h => by simp at h
+  | a :: l, n, e, h => by
+    simp only [List.length_cons, List.range'_succ, List.zip_cons_cons, List.mem_cons] at h
+    rcases h with rfl | h
+    · exact ⟨[], l, rfl, by simp⟩
+    · obtain ⟨pre, post, h1, h2⟩ := mem_zip_range l (n + 1) e h
+      refine ⟨a :: pre, post, by rw [h1]; simp, ?_⟩
+      simp only [List.length_cons]; omega
+
+/-! ### `numpy.unique` (sort + dedupe): sortedness and membership -/
+
+theorem sorted_insertSorted (a : K) : ∀ (l : List K), l.Pairwise (· ≤ ·) → (insertSorted a l).Pairwise (· ≤ ·)
+  | [], _ => by simp [insertSorted]
+  | b :: l, h => by
+    simp only [insertSorted]
+    have hb := List.pairwise_cons.mp h
+    split
+    · rename_i hab
+      apply List.pairwise_cons.mpr
+      refine ⟨?_, h⟩
+      intro x hx
+      rcases List.mem_cons.mp hx with rfl | hx
+      · exact hab
+      · exact le_trans hab (hb.1 x hx)
+    · rename_i hab
+      apply List.pairwise_cons.mpr
+      refine ⟨?_, sorted_insertSorted a l hb.2⟩
+      intro x hx
+      rcases (mem_insertSorted a x l).mp hx with rfl | hx
+      · exact le_of_lt (not_le.mp hab)
+      · exact hb.1 x hx
+
+theorem sorted_sortK : ∀ (l : List K), (sortK l).Pairwise (· ≤ ·)
+  | [] => by simp [sortK]
+  | a :: l => by
+    have := sorted_sortK l
+    simp only [sortK, List.foldr_cons] at this ⊢
+    exact sorted_insertSorted a _ this
+
+theorem mem_dedupSorted (x : K) : ∀ (l : List K), x ∈ l → x ∈ dedupSorted l
+  | [], h => by simp at h
+  | [a], h => by simpa [dedupSorted] using h
+  | a :: b :: rest, h => by
+    simp only [dedupSorted]
+    split
+    · rename_i hab
+      rcases List.mem_cons.mp h with rfl | h
+      · exact mem_dedupSorted x (b :: rest) (by rw [hab]; exact List.mem_cons_self)
+      · exact mem_dedupSorted x (b :: rest) h
+    · rcases List.mem_cons.mp h with rfl | h
+      · exact List.mem_cons_self
+      · exact List.mem_cons_of_mem _ (mem_dedupSorted x (b :: rest) h)
+
+theorem strict_dedupSorted : ∀ (l : List K), l.Pairwise (· ≤ ·) → (dedupSorted l).Pairwise (· < ·)
+  | [], _ => by simp [dedupSorted]
+  | [a], _ => by simp [dedupSorted]
+  | a :: b :: rest, h => by
+    simp only [dedupSorted]
+    have ha := List.pairwise_cons.mp h
+    split
+    · exact strict_dedupSorted (b :: rest) ha.2
+    · rename_i hab
+      apply List.pairwise_cons.mpr
+      refine ⟨?_, strict_dedupSorted (b :: rest) ha.2⟩
+      intro x hx
+      have hx' := dedupSorted_subset _ x hx
+      have hab' : a < b := lt_of_le_of_ne (ha.1 b List.mem_cons_self) hab
+      rcases List.mem_cons.mp hx' with rfl | hx'
+      · exact hab'
+      · exact lt_of_lt_of_le hab' ((List.pairwise_cons.mp ha.2).1 x hx')
+
 end Atomman.C17
